@@ -21,8 +21,10 @@ import (
 	"flag"
 	"fmt"
 	"go/ast"
+	"go/importer"
 	"go/parser"
 	"go/token"
+	"go/types"
 	"os"
 	"path/filepath"
 	"sort"
@@ -49,6 +51,9 @@ var (
 	// syncFuncs: names of functions / methods of the package whose body uses a
 	// lock, a sync.Once or an atomic operation (one level, by name).
 	syncFuncs = map[string]bool{}
+	// mapRanges: "file:offset of for" of range statements over maps
+	mapRanges   = map[string]bool{}
+	mapRewrites int
 )
 
 func main() {
@@ -82,19 +87,44 @@ func main() {
 	}
 	sort.Strings(files)
 
-	// pre-pass: which functions of the package synchronise?
+	// pre-pass: which functions of the package synchronise? which range
+	// statements iterate over a map?
 	{
 		pf := token.NewFileSet()
+		var pfiles []*ast.File
 		for _, name := range files {
 			f, err := parser.ParseFile(pf, filepath.Join(*dir, name), nil, 0)
 			if err != nil {
 				fatal(err)
 			}
+			pfiles = append(pfiles, f)
 			for _, d := range f.Decls {
 				if fd, ok := d.(*ast.FuncDecl); ok && fd.Body != nil && usesSyncPrimitive(fd.Body) {
 					syncFuncs[fd.Name.Name] = true
 				}
 			}
+		}
+		info := &types.Info{Types: map[ast.Expr]types.TypeAndValue{}}
+		conf := types.Config{Importer: importer.ForCompiler(pf, "source", nil), Error: func(error) {}}
+		if _, err := conf.Check("apd", pf, pfiles, info); err != nil {
+			fmt.Fprintf(os.Stderr, "instr: type check incomplete (%v); map iteration is left as it is\n", err)
+		}
+		for i, f := range pfiles {
+			name := files[i]
+			ast.Inspect(f, func(n ast.Node) bool {
+				rs, ok := n.(*ast.RangeStmt)
+				if !ok {
+					return true
+				}
+				tv, ok := info.Types[rs.X]
+				if !ok || tv.Type == nil {
+					return true
+				}
+				if _, isMap := tv.Type.Underlying().(*types.Map); isMap {
+					mapRanges[fmt.Sprintf("%s:%d", name, pf.Position(rs.For).Offset)] = true
+				}
+				return true
+			})
 		}
 	}
 
@@ -196,6 +226,66 @@ func main() {
 			ord++
 			poolRewrites += pools
 		}
+		// Map iteration order is randomised by the runtime: another source of
+		// nondeterminism the simulator must own. `for k, v := range m` over a map
+		// becomes an iteration over the sorted keys (entries deleted meanwhile
+		// are skipped, entries added are not visited: both allowed by the spec).
+		ast.Inspect(f, func(n ast.Node) bool {
+			rs, ok := n.(*ast.RangeStmt)
+			if !ok || !mapRanges[fmt.Sprintf("%s:%d", name, fset.Position(rs.For).Offset)] {
+				return true
+			}
+			pure := true
+			ast.Inspect(rs.X, func(x ast.Node) bool {
+				switch x.(type) {
+				case *ast.CallExpr, *ast.IndexExpr, *ast.FuncLit, *ast.UnaryExpr:
+					pure = false
+				}
+				return pure
+			})
+			keyName, valName := "", ""
+			if rs.Key != nil {
+				id, ok := rs.Key.(*ast.Ident)
+				if !ok {
+					return true
+				}
+				keyName = id.Name
+			}
+			if rs.Value != nil {
+				id, ok := rs.Value.(*ast.Ident)
+				if !ok {
+					return true
+				}
+				valName = id.Name
+			}
+			if !pure {
+				return true
+			}
+			mapRewrites++
+			k := mapRewrites
+			m := string(src[fset.Position(rs.X.Pos()).Offset:fset.Position(rs.X.End()).Offset])
+			tok := rs.Tok.String()
+			if rs.Key == nil {
+				tok = ":="
+			}
+			hdr := fmt.Sprintf("for _, verifK%d := range verifSortedKeys(%s) { verifV%d, verifOK%d := (%s)[verifK%d]; _ = verifV%d; if !verifOK%d { continue }; ", k, m, k, k, m, k, k, k)
+			if keyName != "" && keyName != "_" {
+				hdr += fmt.Sprintf("%s %s verifK%d; ", keyName, tok, k)
+				if tok == ":=" {
+					hdr += fmt.Sprintf("_ = %s; ", keyName)
+				}
+			}
+			if valName != "" && valName != "_" {
+				hdr += fmt.Sprintf("%s %s verifV%d; ", valName, tok, k)
+				if tok == ":=" {
+					hdr += fmt.Sprintf("_ = %s; ", valName)
+				}
+			}
+			b := fset.Position(rs.For).Offset
+			e := fset.Position(rs.Body.Lbrace).Offset + 1
+			ins = append(ins, insertion{off: b, text: "\x00" + fmt.Sprint(e-b) + "\x00" + hdr, ord: 1 << 30})
+			return true
+		})
 		// yields
 		for _, d := range f.Decls {
 			fd, ok := d.(*ast.FuncDecl)
@@ -234,7 +324,7 @@ func main() {
 	writeHooks(*dir, pkgName)
 	writeRaceShims(*dir, pkgName)
 	writeAccess(*dir, pkgName, globals, hasBigIntInner && hasNegSentinel)
-	fmt.Printf("instr: %d files, %d yield sites, %d package-level vars, %d sync.{Pool,Mutex,RWMutex} rewrites, knobs=%v\n", len(files), len(sites), len(globals), poolRewrites, knobApplied)
+	fmt.Printf("instr: %d files, %d yield sites, %d package-level vars, %d sync.{Pool,Mutex,RWMutex} rewrites, %d map-range rewrites, knobs=%v\n", len(files), len(sites), len(globals), poolRewrites, mapRewrites, knobApplied)
 }
 
 func fatal(err error) {
@@ -501,7 +591,7 @@ func apply(src []byte, ins []insertion) []byte {
 
 func writeHooks(dir, pkg string) {
 	var b bytes.Buffer
-	fmt.Fprintf(&b, "//go:build verif\n\n// Code generated by /verif/sim/cmd/instr. DO NOT EDIT.\n\npackage %s\n\nimport \"unsafe\"\n\n", pkg)
+	fmt.Fprintf(&b, "//go:build verif\n\n// Code generated by /verif/sim/cmd/instr. DO NOT EDIT.\n\npackage %s\n\nimport (\n\t\"fmt\"\n\t\"sort\"\n\t\"unsafe\"\n)\n\n", pkg)
 	b.WriteString(`// VerifHook, when non-nil, is called at every yield point. It must be a
 // //go:norace function.
 var VerifHook func(site int32)
@@ -703,6 +793,36 @@ func (m *verifRWMutex) RLocker() interface {
 	Unlock()
 } {
 	return (*verifRLocker)(m)
+}
+
+// verifSortedKeys returns the keys of m in a deterministic order.
+func verifSortedKeys[K comparable, V any](m map[K]V) []K {
+	keys := make([]K, 0, len(m))
+	for k := range m {
+		keys = append(keys, k)
+	}
+	sort.Slice(keys, func(i, j int) bool { return verifKeyLess(keys[i], keys[j]) })
+	return keys
+}
+
+func verifKeyLess(a, b interface{}) bool {
+	switch x := a.(type) {
+	case int:
+		return x < b.(int)
+	case int32:
+		return x < b.(int32)
+	case int64:
+		return x < b.(int64)
+	case uint:
+		return x < b.(uint)
+	case uint32:
+		return x < b.(uint32)
+	case uint64:
+		return x < b.(uint64)
+	case string:
+		return x < b.(string)
+	}
+	return fmt.Sprint(a) < fmt.Sprint(b)
 }
 
 // VerifSite describes one yield site.
